@@ -140,7 +140,10 @@ let () =
               | "sparc" -> (7, "pc", "g_r14", "", "")
               | c -> failwith ("T case: cpu " ^ c) in
             let osid = match !os with "win" -> 1 | "ios" -> 2 | _ -> 0 in
+            (* MinidumpContext::read has no arm for PROCESSOR_ARCHITECTURE_MIPS64 (`_ => Err(UnknownCpuContext)`): in a mips64
+               dump no context is decoded, neither a thread's nor the exception's *)
             let ctx_of (r : (string * z) list option) = match r with
+              | _ when !cpu = "mips64" -> None
               | None -> None
               | Some l ->
                 let g n = if n = "" then z_of_int 0 else (try List.assoc n l with Not_found -> z_of_int 0) in
